@@ -293,6 +293,9 @@ var solvers = []solverSpec{
 // limits measure solver work rather than contention.
 var procSem = make(chan struct{}, 16)
 
+// wallFactor: how much longer than its CPU-time limit a solver may take in wall-clock time (machine under load).
+const wallFactor = 8
+
 func runSolver(ctx context.Context, s solverSpec, file string, timeout int) (status, out string) {
 	select {
 	case procSem <- struct{}{}:
@@ -303,10 +306,13 @@ func runSolver(ctx context.Context, s solverSpec, file string, timeout int) (sta
 	if ctx.Err() != nil {
 		return "unknown", "cancelled"
 	}
-	args := s.cmd(file, timeout)
-	cctx, cancel := context.WithTimeout(ctx, time.Duration(timeout+2)*time.Second)
+	// The limit is CPU time (RLIMIT_CPU through the shell's ulimit), so that a loaded machine makes a query slower but does not
+	// make it time out; the solvers' own wall-clock options and the context are generous backstops only.
+	args := s.cmd(file, timeout*wallFactor)
+	cctx, cancel := context.WithTimeout(ctx, time.Duration(timeout*wallFactor+2)*time.Second)
 	defer cancel()
-	cmd := exec.CommandContext(cctx, args[0], args[1:]...)
+	sh := append([]string{"-c", fmt.Sprintf("ulimit -t %d; exec \"$@\"", timeout), "sh"}, args...)
+	cmd := exec.CommandContext(cctx, "/bin/sh", sh...)
 	var buf bytes.Buffer
 	cmd.Stdout = &buf
 	cmd.Stderr = &buf
@@ -464,7 +470,7 @@ func dischargeAll(qs []*Query, c *Contracts, dir string, timeout int, cross bool
 	os.MkdirAll(dir, 0o755) //nolint:errcheck
 	var failMu sync.Mutex
 	failed := map[string]int{}
-	budget := 600 * time.Second
+	budget := 1500 * time.Second
 	if cross {
 		budget = 3600 * time.Second
 	}
